@@ -175,4 +175,101 @@ def clashes : List Decl → List (Decl × Decl)
 /-- The scope is well-formed as far as names go. -/
 def clean (ds : List Decl) : Bool := (clashes ds).isEmpty
 
+/-! ## `_verify_generated_field_names_are_distinct` (back end, since commit dca9b37) -/
+
+def isDollar : Name → Bool
+  | '$' :: _ => true
+  | _ => false
+
+/-- Names entered into the `virtual_view_names` dictionary, in field order: non-alias virtual
+fields whose name does not start with `$`. -/
+def checkedVirtualNames (fs : List Field) : List Name :=
+  (fs.filter (fun f => f.ownView && !isDollar f.name)).map
+    (fun f => s "EmbossReservedVirtual" ++ snakeToCamel f.name ++ s "View")
+
+/-- Names entered into the `validator_names` dictionary: physical fields with `[requires]`. -/
+def checkedValidatorNames (fs : List Field) : List Name :=
+  (fs.filter (fun f => f.validator && !isDollar f.name)).map (fun f => validatorName f.name)
+
+/-- No "… would both be named '…' in the generated C++ code." error for the structure. -/
+def fieldNamesDistinct (fs : List Field) : Bool :=
+  Emboss.Enum.distinctLoop [] (checkedVirtualNames fs) && Emboss.Enum.distinctLoop [] (checkedValidatorNames fs)
+
+/-! ## `(cpp) namespace`: `_NS_RE`, `_get_namespace_components`, `_verify_namespace_attribute`
+
+`_NS_COMPONENT_RE = (?:^\s*|::)\s*([a-zA-Z_][a-zA-Z0-9_]*)\s*(?=\s*$|::)` and
+`_NS_RE = ^\s*(?:component)+\s*$` describe the regular language
+`ws* (:: ws*)? ident ws* (:: ws* ident ws*)*`; the scanner below is its deterministic
+automaton, collecting the identifiers (`re.findall` returns exactly them for a text that
+matches `_NS_RE`).  `\s` on `str` patterns = `str.isspace()` (`Emboss.Enum.isSpace`). -/
+
+def isIdentStart (c : Char) : Bool := c.isAlpha || c == '_'
+def isIdentChar (c : Char) : Bool := c.isAlphanum || c == '_'
+
+inductive NsState where
+  /-- only whitespace so far -/
+  | lead
+  /-- the first `:` of a `::` has been read -/
+  | colon1
+  /-- after a `::` (and whitespace): an identifier must follow -/
+  | sep
+  /-- inside an identifier (characters reversed) -/
+  | ident (cur : List Char)
+  /-- whitespace after an identifier: `::` or the end of the text -/
+  | trail
+deriving Repr
+
+/-- `acc`: components so far, reversed. -/
+def nsScan : NsState → List Name → List Char → Option (List Name)
+  | .ident cur, acc, [] => some (cur.reverse :: acc).reverse
+  | .trail, acc, [] => some acc.reverse
+  | _, _, [] => none
+  | .lead, acc, c :: cs =>
+    if Emboss.Enum.isSpace c then nsScan .lead acc cs
+    else if c = ':' then nsScan .colon1 acc cs
+    else if isIdentStart c then nsScan (.ident [c]) acc cs
+    else none
+  | .colon1, acc, c :: cs => if c = ':' then nsScan .sep acc cs else none
+  | .sep, acc, c :: cs =>
+    if Emboss.Enum.isSpace c then nsScan .sep acc cs
+    else if isIdentStart c then nsScan (.ident [c]) acc cs
+    else none
+  | .ident cur, acc, c :: cs =>
+    if isIdentChar c then nsScan (.ident (c :: cur)) acc cs
+    else if Emboss.Enum.isSpace c then nsScan .trail (cur.reverse :: acc) cs
+    else if c = ':' then nsScan .colon1 (cur.reverse :: acc) cs
+    else none
+  | .trail, acc, c :: cs =>
+    if Emboss.Enum.isSpace c then nsScan .trail acc cs
+    else if c = ':' then nsScan .colon1 acc cs
+    else none
+
+/-- `re.fullmatch(_NS_RE, text)` and, when it matches, `_get_namespace_components(text)`. -/
+def nsParse (text : List Char) : Option (List Name) := nsScan .lead [] text
+
+/-- `_NS_GLOBAL_RE = ^\s*::\s*$`. -/
+def nsIsGlobal (text : List Char) : Bool :=
+  match text.dropWhile Emboss.Enum.isSpace with
+  | ':' :: ':' :: rest => rest.all Emboss.Enum.isSpace
+  | _ => false
+
+inductive NsVerdict where
+  | ok (components : List Name)
+  | empty | global | invalid
+  | reserved (words : List Name)
+deriving Repr, DecidableEq
+
+/-- `_verify_namespace_attribute` against a list of reserved words (the real one is
+`Emboss.Generated.cppReservedWords`, regenerated from `_CPP_RESERVED_WORDS` on every run). -/
+def verifyNamespace (reservedWords : List String) (text : List Char) : NsVerdict :=
+  match nsParse text with
+  | none =>
+    if text.all Emboss.Enum.isSpace then .empty
+    else if nsIsGlobal text then .global
+    else .invalid
+  | some cs =>
+    match cs.filter (fun c => reservedWords.contains (String.ofList c)) with
+    | [] => .ok cs
+    | ws => .reserved ws
+
 end Emboss.Names
